@@ -215,7 +215,7 @@ func c07Run(rep *verifrep.R, dir string, plan *c07Plan, sample bool) {
 			viol("entry-lost", fmt.Sprintf("entry %d missing from the durable log after the crash: %v", e.Id, err))
 			continue
 		}
-		m := robust.NewMessageFromBytes(l.Data, l.Index)
+		m := robust.NewMessageFromBytes(l.Data, robust.IdFromRaftIndex(l.Index))
 		want := raftLogOf(e)
 		if i == plan.CrashAt {
 			if m.Type != robust.MessageOfDeath {
@@ -241,7 +241,19 @@ func c07Run(rep *verifrep.R, dir string, plan *c07Plan, sample bool) {
 	if len(stored) != len(plan.Entries) {
 		return
 	}
-	// phase 2: restart on the same directory and replay what the durable log holds
+	// phase 2: restart on the same directory and replay what the durable log holds.
+	// If the process dies in this phase the node does not survive its own replay:
+	// the driver attributes the death to the plan announced here.
+	pw := *plan
+	pw.Entries, pw.Extra = nil, nil
+	rep.Progress(map[string]interface{}{"phase": "restart-replay", "plan": pw, "crash_entry": crash})
+	defer rep.Progress(map[string]interface{}{"phase": "done"})
+	defer func() {
+		if p := recover(); p != nil {
+			viol("node-dies-again-on-restart:panic", fmt.Sprintf("after the crash the node was restarted on the same directory; restoring / replaying / snapshotting / applying later entries panicked again: %v", p))
+			rep.Case("fatal-in-replay")
+		}
+	}()
 	f := newFixture(filepath.Join(dir, "node"))
 	defer f.close()
 	idx, err := f.restoreLatest()
